@@ -767,6 +767,18 @@ def size(x):
     return sum(1 for _ in walk(x))
 
 
+
+KNOWN_WHY = ('topology-diff-deviations-only', 'userdata-bool-number-conflated only', 'spurious-SUB_INTERFACES-on-port')
+
+
+def strictly_failing(stream):
+    """shrinking predicate: the case still fails for a reason that is NOT one of the known deviations"""
+    def f(c):
+        w = stream.oracle(c, stream.observe(c))
+        return w is not None and not any(k in w for k in KNOWN_WHY)
+    return f
+
+
 class DiffStream(Stream):
     level = 'node'
     header = ('From Coq Require Import List ZArith NArith Bool.\nImport ListNotations.\n'
@@ -847,6 +859,7 @@ class DiffStream(Stream):
         return h
 
     def shrink(self, case, failing):
+        failing = strictly_failing(self)
         case = copy.deepcopy(case)
         progress = True
         rounds = 0
@@ -1110,6 +1123,7 @@ class HistoryS(DiffStream):
         return h
 
     def shrink(self, case, failing):
+        failing = strictly_failing(self)
         case = copy.deepcopy(case)
         i = 0
         while i < len(case['steps']) - 1 and len(case['steps']) > 2:
@@ -1548,6 +1562,7 @@ class TopoS(Stream):
         return h
 
     def shrink(self, case, failing):
+        failing = strictly_failing(self)
         case = copy.deepcopy(case)
         i = 0
         while i < len(case['edits']):
